@@ -8,7 +8,7 @@ NJOBS = 14
 # the bootstrappers lattigo itself provides: SecretKeyBootstrapper (minimum level 0; only consistent with one modulus per
 # rescaling) and bootstrapping.Evaluator (minimum level = moduli per rescaling)
 MININS = {1: set([0, 1]), 2: set([2])}
-COMPS = {2: set(["default", "chain", "chainx4"]), 1: set(["chain", "chainx4"])}
+COMPS = {2: set(["default", "chain", "chainx4", "even4"]), 1: set(["chain", "chainx4", "even4"])}
 
 
 def sig_of(e):
@@ -22,7 +22,7 @@ def describe(e):
 
 def run_composite(ctx):
     ctx.assumptions += [
-        "composite circuits: sign / step / max / min with the shipped default composite sign polynomial (scale 2^90 only), twelve compositions of 1.5x-0.5x^3 and five of the degree-7 map followed by two cubic ones; Goldschmidt division and the inverse on the positive, negative and full domain with and without interval normalisation (2^-4 <= |x| <= 2^4); ring degree 2^9, scale 2^90 with two moduli per rescaling (standard and conjugate-invariant ring) and scale 2^45 with one; every usable input level; inputs include the end points of the stated domain",
+        "composite circuits: sign / step / max / min with the shipped default composite sign polynomial (scale 2^90 only), twelve compositions of 1.5x-0.5x^3, five of the degree-7 map followed by two cubic ones, and (plain evaluation only) two polynomials of degree 4, a power of two; Goldschmidt division and the inverse on the positive, negative and full domain with and without interval normalisation (2^-4 <= |x| <= 2^4); ring degree 2^9, scale 2^90 with two moduli per rescaling (standard and conjugate-invariant ring) and scale 2^45 with one; every usable input level; inputs include the end points of the stated domain",
         "the bootstrapper is the repository's decrypt-and-re-encrypt SecretKeyBootstrapper behind a recorder, announcing the minimum input levels lattigo's own bootstrappers announce (0 or 1 with one modulus per rescaling, 2 with two); a minimum level of 1 with two moduli per rescaling makes the Goldschmidt division fail (TLC shows it on the model, see DESIGN 11.3) and is not driven",
         "references are computed outside lattigo: Clenshaw recurrence on 256-bit floats for the composites, the ideal functions directly; floors: log2(scale) - logN - 12 bits on the worst slot (relative for 1/x), and the composite's own plaintext accuracy for the ideal function",
         "mod 1: the three configurations of the repository's test (sine with arcsine, discrete and continuous cosine with double angle; K of the last reduced to 40) at half its ring degree, through EvaluateNew and EvaluateAndScaleNew with scaling 1, 2 and 1/2, prepared as that test prepares its input; reference: float64 sine / arcsine",
@@ -58,6 +58,8 @@ def run_composite(ctx):
         r = tlc(dg, 'MC_CompositeGen', timeout=900)
         ctx.add_mc(r, 'CompositeGen configurations')
         allc = [json.loads(c) for c in progs_from(r)]
+        # the composite of two degree-4 polynomials is not a sign approximant: it only goes through the plain evaluation
+        allc = [c for c in allc if c['comp'] != 'even4' or c['circuit'] in ('sign', 'step')]
         if ctx.quick:
             # one configuration per distinct predicted schedule (sign family); the inverse at every level
             rnd = random.Random(int(ctx.seed) + 13)
